@@ -12,6 +12,9 @@ import FFVerif.Model.Gradient
 import FFVerif.Model.Pulse
 import FFVerif.Model.Concat
 import FFVerif.Model.Basis
+import FFVerif.Model.Cumulant
+import FFVerif.Model.CacheTrace
+import FFVerif.Model.Effects
 
 namespace FFVerif.Model
 open FFVerif FFVerif.Proto
@@ -63,7 +66,7 @@ def handleMore (toks : List String) : String :=
     "ok " ++ showFloats #[v]
   | toks =>
     -- components that live in their own model files
-    let handlers : List (List String → Option String) := [handleDiag, Tensor.handleTensor, handleSecondOrder, handleGradient, Pulse.handlePulse, handleBasis]
+    let handlers : List (List String → Option String) := [handleDiag, Tensor.handleTensor, handleSecondOrder, handleGradient, Pulse.handlePulse, handleBasis, handleCumulant, Cache.handleCacheTrace, Effects.handleEffects]
     match handlers.findSome? (fun h => h toks) with
     | some r => r
     | none => "err bad-op"
